@@ -25,7 +25,7 @@ EXPLANATION = (
 FUNCTIONS = ["ConvertFuncToX86FuncPass", "ConvertArithToX86Pass", "reconcile-unrealized-casts", "X86RegisterAllocator / x86-allocate-registers", "X86PrologueEpilogueInsertion",
              "x86 op classes (operand conventions of rs/ri/ds/di/dm/ms/push/pop forms)"]
 ASSUMPTIONS = ["x86-64 integer subset semantics vx/x86sem.py (mov/add/sub/imul/and/or/xor/lea/push/pop; mov r64, imm32 sign-extends)", "SysV: args in rdi,rsi,rdx,rcx,r8,r9; result in rax; callee-saved rbx,rbp,r12-r15"]
-OUTSIDE = ["that the text assembles with the system assembler and the native run", "stack-passed arguments", "i32 functions", "floating point / AVX ops"]
+OUTSIDE = ["that the text assembles with the system assembler and the native run (the text of each CONCRETE immediate and memory offset, produced by the real assembly_arg_str / assembly_line, is read back and must denote the operand the reference machine executes; text rendered from a symbolic 64-bit immediate is not modelled)", "stack-passed arguments", "i32 functions", "floating point / AVX ops"]
 STUBS = []
 
 PIPE = "convert-func-to-x86-func,convert-arith-to-x86,reconcile-unrealized-casts,canonicalize,dce,x86-allocate-registers,canonicalize,x86-prologue-epilogue-insertion"
@@ -45,6 +45,8 @@ PROGRAMS = {
     "add1": (1, "%r = arith.addi %a0, %a0 : i64"),
     "addmul3": (3, "%s = arith.addi %a0, %a1 : i64\n %m = arith.muli %s, %a2 : i64\n %r = arith.addi %m, %a0 : i64"),
     "const_small": (2, "%k = arith.constant 1000 : i64\n %s = arith.addi %a0, %k : i64\n %r = arith.muli %s, %a1 : i64"),
+    "const_neg_big": (2, "%k = arith.constant -100000 : i64\n %j = arith.constant -5 : i64\n %s = arith.addi %a0, %j : i64\n %t = arith.muli %s, %a1 : i64\n %r = arith.addi %t, %k : i64"),
+    "const_boundaries": (1, "%k = arith.constant -2147483648 : i64\n %j = arith.constant 2147483647 : i64\n %i = arith.constant 65536 : i64\n %s = arith.addi %a0, %k : i64\n %t = arith.muli %s, %j : i64\n %r = arith.addi %t, %i : i64"),
     "const_two": (2, "%k = arith.constant 1000 : i64\n %j = arith.constant 1001 : i64\n %s = arith.muli %a0, %k : i64\n %t = arith.addi %s, %j : i64\n %r = arith.muli %t, %a1 : i64"),
     "reuse": (2, "%x = arith.muli %a0, %a0 : i64\n %y = arith.muli %x, %a1 : i64\n %z = arith.addi %y, %x : i64\n %r = arith.addi %z, %a1 : i64"),
     "six_args": (6, "%s1 = arith.addi %a0, %a1 : i64\n %s2 = arith.muli %s1, %a2 : i64\n %s3 = arith.addi %s2, %a3 : i64\n %s4 = arith.muli %s3, %a4 : i64\n %r = arith.addi %s4, %a5 : i64"),
@@ -118,6 +120,7 @@ def harness(ob, concrete=None):
             for r_ in x86sem.CALLEE_SAVED + ["rsp"]:
                 mach.r[r_] = mach.init[r_] = z3.BitVecVal(concrete.get(r_, 0x20000 if r_ == "rsp" else 0), 64)
         mem0 = mach.mem
+        del x86sem.EMIT[:]
         done = False
         for op in xf.body.blocks.first.ops:
             if x86sem.exec_op(mach, op) is not None:
@@ -126,7 +129,7 @@ def harness(ob, concrete=None):
         if not done:
             raise tv.InvalidIR("no ret")
         res, dfd = before[0][0], before[1]
-        props = [mach.get("rax") == res, mach.get("rsp") == mach.init["rsp"]]
+        props = [mach.get("rax") == res, mach.get("rsp") == mach.init["rsp"]] + list(x86sem.EMIT)
         for r_ in x86sem.CALLEE_SAVED:
             props.append(mach.get(r_) == mach.init[r_])
         probe = z3.BitVec("probe_addr", 64) if concrete is None else z3.BitVecVal(concrete.get("probe_addr", 0), 64)
